@@ -8,6 +8,8 @@ import Uquic.Proofs.PN
 import Uquic.Proofs.PNGen
 import Uquic.Proofs.KeyPhase
 import Uquic.Proofs.Packet
+import Uquic.Model.Crypto.RfcConst
+import Uquic.Generated.Handshake
 
 namespace Uquic.Props.C05
 open Uquic.Model.PN Uquic.Model.Bytes Uquic.Proofs.PN Uquic.Proofs.PNGen
@@ -461,5 +463,49 @@ example : (match (protect toyKeys [0x41, 0x12, 0x34] 0x1234 [9, 8]).map (fun p =
 example : protect toyKeys [0x41, 0x12, 0x34] 0x1234 [9] = none := by decide
 
 end Protection
+
+/-! ## 6. the constants of the key derivations are the RFCs' (regenerated facts vs. RFC 9001 / RFC 9369)
+
+The derivation FUNCTIONS (HKDF-Expand-Label, AES, GCM) are external code; that the keys, IVs, masks and
+tags the implementation computes are the RFC's for every connection ID and both versions is checked by
+the `pkt`/`keyphase` correspondence drivers against the independent executable rendering of the RFCs in
+Uquic/Model/Crypto/Prim.lean. What IS a theorem: every constant the Go code feeds into them. -/
+
+section Derivations
+open Uquic.Model Uquic.Gen
+
+/-- Initial salts (RFC 9001 §5.2, RFC 9369 §3.3.1) -/
+theorem salts_are_rfc : Handshake.quicSaltV1 = Rfc.salt 1 ∧ Handshake.quicSaltV2 = Rfc.salt 2 := by decide
+
+/-- key / IV / header-protection labels for both versions (RFC 9001 §5.1, §5.4; RFC 9369 §3.3.2) -/
+theorem labels_are_rfc :
+    Handshake.hkdfLabelKeyV1 = Rfc.keyLabel 1 ∧ Handshake.hkdfLabelKeyV2 = Rfc.keyLabel 2 ∧
+    Handshake.hkdfLabelIVV1 = Rfc.ivLabel 1 ∧ Handshake.hkdfLabelIVV2 = Rfc.ivLabel 2 ∧
+    Handshake.hpLabelV1 = Rfc.hpLabel 1 ∧ Handshake.hpLabelV2 = Rfc.hpLabel 2 := by decide
+
+/-- Retry integrity nonces (RFC 9001 §5.8, RFC 9369 §3.3.3) -/
+theorem retry_nonces_are_rfc :
+    Handshake.retryNonceV1 = Rfc.retryNonce 1 ∧ Handshake.retryNonceV2 = Rfc.retryNonce 2 := by decide
+
+/-- header protection touches the low 4 bits of a long header's first byte and the low 5 bits of a short
+    header's (RFC 9001 §5.4.1), for both the AES and the ChaCha20 protector -/
+theorem hp_mask_bits_rfc :
+    Uquic.Model.Packet.firstMask true = 0x0f ∧ Uquic.Model.Packet.firstMask false = 0x1f ∧
+    Handshake.chachaFirstByteMaskLong = Handshake.aesFirstByteMaskLong ∧
+    Handshake.chachaFirstByteMaskShort = Handshake.aesFirstByteMaskShort := by decide
+
+/-- full statement: the key-update label is the RFC's for BOTH versions -/
+def ku_label_rfc_full : Prop :=
+  Handshake.keyUpdateLabelV1 = Rfc.kuLabel 1 ∧ Handshake.keyUpdateLabelV2 = Rfc.kuLabel 2
+
+/-- ⚠ partial: QUIC v1 only. `getNextTrafficSecret` passes "quic ku" for every version. -/
+theorem ku_label_rfc_partial : Handshake.keyUpdateLabelV1 = Rfc.kuLabel 1 := by decide
+
+/-- the full statement is FALSE on the current tree: for QUIC v2 the code derives the next traffic secret
+    with "quic ku" where RFC 9369 §3.3.2 prescribes "quicv2 ku" (finding C05-v2-ku-label; after the fix in
+    fixes/C05-v2-ku-label.diff this theorem no longer compiles and `ku_label_rfc_full` is provable) -/
+theorem ku_label_rfc_witness : ¬ ku_label_rfc_full := by unfold ku_label_rfc_full; decide
+
+end Derivations
 
 end Uquic.Props.C05
